@@ -68,24 +68,21 @@ Proof.
   intro id. rewrite H2. apply Hr.
 Qed.
 
-Lemma dispatch_keys_x_calm : forall ks st m t src port, calm st ->
-  drop3 (dispatch_keys_x (fun _ => false) st ks m t src port) = dispatch_keys st ks m t src port.
+Lemma dispatch_match_x_calm : forall st m t src port, calm st ->
+  drop3 (dispatch_match_x (fun _ => false) st m t src port) = dispatch_match_d st m t src port
+  /\ forall id, rtmpl (fst (dispatch_match_d st m t src port)) id = rtmpl st id.
 Proof.
-  induction ks as [| [k l] ks IH]; intros st m t src port Hc; simpl; [reflexivity|].
-  destruct (osc_rematch (m_addr m) k); try reflexivity.
-  - destruct (call_all_x_calm l st m t src port Hc) as [H1 H2]. rewrite H1.
-    destruct (call_all st l m t src port) as [st1 o1]. simpl in H2.
-    pose proof (IH st1 m t src port (calm_ext st st1 H2 Hc)) as H3.
-    destruct (dispatch_keys_x (fun _ => false) st1 ks m t src port) as [[st2 o2] ab2].
-    unfold drop3 in *. simpl in *. destruct (dispatch_keys st1 ks m t src port). inversion H3; subst. reflexivity.
-  - apply IH. assumption.
+  intros st m t src port Hc. unfold dispatch_match_x, dispatch_match_d.
+  destruct (matched_keys m (act_match st)) as [ks|]; [|split; reflexivity].
+  destruct (call_all_x_calm (reg_entries st ks) st m t src port Hc) as [H1 H2]. rewrite H1. split; [|exact H2].
+  unfold drop3. simpl. destruct (call_all st (reg_entries st ks) m t src port); reflexivity.
 Qed.
 
 Lemma incoming_x_calm : forall st m t src port, calm st ->
   drop3 (incoming_x (fun _ => false) st m t src port) = incoming st m t src port
   /\ forall id, rtmpl (fst (incoming st m t src port)) id = rtmpl st id.
 Proof.
-  intros st m t src port Hc. unfold incoming_x, incoming, dispatch_exact_x, dispatch_exact_d, dispatch_match_d.
+  intros st m t src port Hc. unfold incoming_x, incoming, dispatch_exact_x, dispatch_exact_d.
   assert (Hex : exists st1 o1, (match tbl_get (act_exact st) (m_addr m) with Some l => call_all_x (fun _ => false) st l m t src port | None => (st, [], false) end) = (st1, o1, false)
                  /\ (match tbl_get (act_exact st) (m_addr m) with Some l => call_all st l m t src port | None => (st, []) end) = (st1, o1)
                  /\ forall id, rtmpl st1 id = rtmpl st id).
@@ -94,21 +91,9 @@ Proof.
       exists st1, o1. repeat split; assumption.
     - exists st, []. repeat split; reflexivity. }
   destruct Hex as (st1 & o1 & E1 & E2 & Hr). rewrite E1, E2.
-  pose proof (dispatch_keys_x_calm (act_match st1) st1 m t src port (calm_ext st st1 Hr Hc)) as H3.
-  assert (Hr2 : forall id, rtmpl (fst (dispatch_keys st1 (act_match st1) m t src port)) id = rtmpl st1 id).
-  { generalize (act_match st1) as ks. intro ks. revert Hr. generalize st1 as s1. clear.
-    intros s1 _. revert s1. induction ks as [| [k l] ks IHk]; intro s1; simpl; [reflexivity|].
-    destruct (osc_rematch (m_addr m) k); try reflexivity.
-    - pose proof (fun Hc => proj2 (call_all_x_calm l s1 m t src port Hc)) as _.
-      assert (Hl : forall id, rtmpl (fst (call_all s1 l m t src port)) id = rtmpl s1 id).
-      { clear IHk. revert s1. induction l as [| w l IHl]; intro s1; simpl; [reflexivity|].
-        pose proof (rtmpl_call_wrapped s1 w m t src port) as Hw. destruct (call_wrapped s1 w m t src port) as [s2 o]. simpl in Hw.
-        pose proof (IHl s2) as H2. destruct (call_all s2 l m t src port) as [s3 o']. simpl in *. intro id. rewrite H2. apply Hw. }
-      destruct (call_all s1 l m t src port) as [s2 o]. simpl in Hl.
-      pose proof (IHk s2) as H2. destruct (dispatch_keys s2 ks m t src port) as [s3 o']. simpl in *. intro id. rewrite H2. apply Hl.
-    - apply IHk. }
-  destruct (dispatch_keys_x (fun _ => false) st1 (act_match st1) m t src port) as [[st2 o2] ab2].
-  unfold drop3 in *. simpl in *. destruct (dispatch_keys st1 (act_match st1) m t src port) as [st2' o2']. inversion H3; subst.
+  destruct (dispatch_match_x_calm st1 m t src port (calm_ext st st1 Hr Hc)) as [H3 Hr2].
+  destruct (dispatch_match_x (fun _ => false) st1 m t src port) as [[st2 o2] ab2].
+  unfold drop3 in *. simpl in *. destruct (dispatch_match_d st1 m t src port) as [st2' o2']. inversion H3; subst.
   simpl in *. split; [reflexivity|]. intro id. rewrite Hr2. apply Hr.
 Qed.
 
